@@ -7,18 +7,25 @@
 //                  that equals 0xFF, and nothing else;
 //   (S3) a code word of `len` bits left-aligned in a u64 contributes bits 63, 62, .. (64 - len) in that
 //        order; a value of `len` additional bits contributes bits len-1, .., 0 of the value in that order.
-// The spec is stated relationally and checked pointwise at a symbolic bit index (i.e. for all indices):
-// `destuff` is (S2) read backwards -- it accepts a byte string iff it is the stuffed form of n raw bytes and
-// returns them -- and `bit_of_bytes` is (S1). Nothing of the real writer's 64-bit accumulator or its
-// has_ff_byte fast path is reused.
+// (S1)-(S3) live in contracts/spec/jpeg_bits.rs (shared with scan.rs). The spec is stated relationally and
+// checked pointwise at a symbolic bit index (i.e. for all indices): `destuff` is (S2) read backwards -- it
+// accepts a byte string iff it is the stuffed form of n raw bytes and returns them -- and `bit_of_bytes` is
+// (S1). Nothing of the real writer's 64-bit accumulator or its has_ff_byte fast path is reused.
+//
+// Vec cost: every `Vec::push` / `extend_from_slice` on a Vec of symbolic length drags the reallocation path
+// into the formula (measured: 8 conditional pushes = 35 s, a write + finalize = out of memory at 12 GB). The
+// obligations on flush_buf / finalize / write_* therefore replace `BitWriter::emit_byte` and
+// `Vec::extend_from_slice` by models that write into capacity reserved by the harness (and FAIL if it does
+// not suffice); emit_byte_contract / emit_byte_model_contract and extend_real_contract /
+// extend_model_contract prove real == model (same deterministic, complete postcondition).
 //
 // Data-structure invariant  wf(w):  valid_buf_bits <= 63 and the low (64 - valid_buf_bits) bits of
 //                                    `buf` are zero (the pending bits are left-aligned in `buf`).
 // Abstract view:  the bytes of `w.output` (already stuffed, opaque) followed by the pending bit sequence
 //                 pend(w, k) = bit (63 - k) of buf, k < valid_buf_bits.
 // write_huffman / write_raw / padding_bits / finalize are specified from an ARBITRARY well-formed state
-// (inductive step => any number of writes); `bitwriter_sequence` additionally runs <= 4 writes from
-// `BitWriter::new()` end to end.
+// (inductive step => any number of writes); `bitwriter_sequence_N` additionally runs <= N writes from
+// `BitWriter::new()` end to end (N = 2, 3).
 //
 // Preconditions (from the call sites):
 //  * write_huffman(bits, len): `bits` is left-aligned -- only its top `len` bits may be set -- and
@@ -201,6 +208,69 @@ fn extend_model_contract() {
 }
 
 // ------------------------------------------------------------------------------------------------
+// Vec::push / <[u8]>::fill models for HuffmanCode::build (kept here: this module is part of every run)
+// ------------------------------------------------------------------------------------------------
+/// `Vec::push` for a Vec whose capacity is known to suffice: `build` pushes into
+/// `Vec::with_capacity(values.len())` at most values.len() - 1 times (huffman.rs:34,43); used by the huffman.rs and scan.rs obligations. Every `push` drags
+/// Vec's reallocation path into the formula (CBMC runs out of memory on `build` otherwise); the model has no
+/// such path and FAILS an assertion if the capacity would not suffice. Needs `#![feature(allocator_api)]`
+/// (added to the scratch copy by the runner via `crate_attrs`). Equivalence with the real `push`:
+/// obligations `push_real_contract` / `push_model_contract` (same deterministic postcondition).
+pub(crate) fn push_model<T, A: core::alloc::Allocator>(v: &mut Vec<T, A>, x: T) {
+    let l = v.len();
+    assert!(l < v.capacity(), "push_model: capacity suffices (build reserves values.len())");
+    unsafe {
+        v.as_mut_ptr().add(l).write(x);
+        v.set_len(l + 1);
+    }
+}
+
+/// `<[T]>::fill` as an element-wise loop (the library version is a memset with a symbolic length, which CBMC's
+/// array theory does not survive when 17 of them are chained in `build`). Same result by definition of fill.
+pub(crate) fn fill_model<T: Clone>(s: &mut [T], value: T) {
+    let mut i = 0;
+    while i < s.len() {
+        s[i] = value.clone();
+        i += 1;
+    }
+}
+
+fn check_push(model: bool) {
+    let mut v: Vec<u64> = Vec::with_capacity(4);
+    let init: [u64; 3] = kani::any();
+    let l0: usize = kani::any();
+    kani::assume(l0 <= 3);
+    unsafe {
+        let p = v.as_mut_ptr();
+        p.write(init[0]);
+        p.add(1).write(init[1]);
+        p.add(2).write(init[2]);
+        v.set_len(l0);
+    }
+    let x: u64 = kani::any();
+    if model {
+        push_model(&mut v, x);
+    } else {
+        v.push(x);
+    }
+    assert!(v.len() == l0 + 1 && v[l0] == x, "x is appended");
+    assert!((l0 < 1 || v[0] == init[0]) && (l0 < 2 || v[1] == init[1]) && (l0 < 3 || v[2] == init[2]), "earlier elements kept");
+    kani::cover!(l0 == 3);
+    kani::cover!(l0 == 0);
+}
+
+#[kani::proof]
+fn push_real_contract() {
+    check_push(false);
+}
+
+#[kani::proof]
+fn push_model_contract() {
+    check_push(true);
+}
+
+
+// ------------------------------------------------------------------------------------------------
 // new
 // ------------------------------------------------------------------------------------------------
 #[kani::proof]
@@ -334,23 +404,20 @@ fn finalize_contract() {
 }
 
 // ------------------------------------------------------------------------------------------------
-// end to end: <= 4 writes of either kind from new(), then finalize
+// end to end: <= N writes of either kind from new(), then finalize (N = 2: quick, N = 3: thorough; N = 4 did
+// not close within 20 min -- the inductive step contracts above cover any number of writes)
 // ------------------------------------------------------------------------------------------------
-#[kani::proof]
-#[kani::unwind(33)]
-#[kani::stub(BitWriter::emit_byte, emit_byte_model)]
-#[kani::stub(std::vec::Vec::extend_from_slice, extend_model)]
-fn bitwriter_sequence() {
+fn bitwriter_sequence_n<const N: usize>() {
     let mut w = BitWriter::new();
     w.output.reserve_exact(RESERVE_SEQ); // see emit_byte_model
     let count: usize = kani::any();
-    kani::assume(count <= 4);
-    let mut bits = [0u64; 4];
-    let mut lens = [0usize; 4];
-    let mut raw_kind = [false; 4];
+    kani::assume(count <= N);
+    let mut bits = [0u64; N];
+    let mut lens = [0usize; N];
+    let mut raw_kind = [false; N];
     let mut total = 0usize;
     let mut i = 0;
-    while i < 4 {
+    while i < N {
         if i < count {
             let b: u64 = kani::any();
             let l: u8 = kani::any();
@@ -371,19 +438,20 @@ fn bitwriter_sequence() {
     }
     let bytes = w.finalize();
     let nbytes = (total + 7) / 8;
-    let Some(raw) = destuff::<32>(&bytes, 0, nbytes) else {
+    let Some(raw) = destuff::<24>(&bytes, 0, nbytes) else {
         assert!(false, "[C17,C01] output is ceil(total/8) raw bytes with 0x00 stuffed after each 0xFF and nothing else");
         return;
     };
     kani::cover!(count == 0 && bytes.is_empty());
-    kani::cover!(count == 4 && total == 252 && bytes.len() == 63); // 31 x 0xFF stuffed + 0xF0
+    kani::cover!(count == N && total == 63 * N && bytes.len() == 2 * nbytes - 1); // all 0xFF but the last byte
+    kani::cover!(count == N && total > 64 && bytes.len() == nbytes); // no stuffing
     let k: usize = kani::any();
     kani::assume(k < nbytes * 8);
     // which write does bit k belong to?
     let mut expect = 0u8; // past the last write: 0-bit fill
     let mut start = 0usize;
     let mut j = 0;
-    while j < 4 {
+    while j < N {
         if k >= start && k < start + lens[j] {
             expect = if raw_kind[j] { bit_of_value(bits[j], lens[j], k - start) } else { bit_of_code(bits[j], k - start) };
         }
@@ -391,6 +459,20 @@ fn bitwriter_sequence() {
         j += 1;
     }
     assert!(bit_of_bytes(&raw, k) == expect, "[C17] bit k of the output is bit k of the concatenated writes (MSB first), then 0-bits to the byte boundary");
-    kani::cover!(count == 4 && total > 192);
-    kani::cover!(count == 4 && bytes.len() > nbytes); // stuffing happened
+}
+
+#[kani::proof]
+#[kani::unwind(25)]
+#[kani::stub(BitWriter::emit_byte, emit_byte_model)]
+#[kani::stub(std::vec::Vec::extend_from_slice, extend_model)]
+fn bitwriter_sequence_2() {
+    bitwriter_sequence_n::<2>();
+}
+
+#[kani::proof]
+#[kani::unwind(25)]
+#[kani::stub(BitWriter::emit_byte, emit_byte_model)]
+#[kani::stub(std::vec::Vec::extend_from_slice, extend_model)]
+fn bitwriter_sequence_3() {
+    bitwriter_sequence_n::<3>();
 }
